@@ -29,6 +29,7 @@ type c11Src struct {
 	PStats bool   `json:"pstats"`
 	Bloom  int    `json:"bloom"`
 	Big    bool   `json:"big"`
+	Flat   bool   `json:"flat"` // every column required and not repeated
 }
 type c11Dst struct {
 	Codec  string `json:"codec"`
@@ -62,6 +63,70 @@ func c11RowOf(id int) c11Row {
 		r.L = append(r.L, int64(id*10+j))
 	}
 	return r
+}
+
+// c11Flat: the same rows without the optional and the repeated column.
+type c11Flat struct {
+	ID int64  `parquet:"id"`
+	K  int64  `parquet:"k"`
+	S  string `parquet:"s"`
+}
+
+type c11WideRow struct {
+	c11Row
+	Extra int64 `parquet:"zextra"`
+}
+
+type c11WideFlat struct {
+	c11Flat
+	Extra int64 `parquet:"zextra"`
+}
+
+// c11Shape: the row type a scenario uses.
+type c11Shape struct {
+	schema, wide *parquet.Schema
+	row          func(id int) any
+	wideRow      func(id int) any
+	verify       func(row parquet.Row) int // the id when the row is what the id stands for
+}
+
+func c11ShapeOf(flat bool) c11Shape {
+	if flat {
+		schema := parquet.SchemaOf(c11Flat{})
+		mk := func(id int) c11Flat { r := c11RowOf(id); return c11Flat{r.ID, r.K, r.S} }
+		return c11Shape{schema: schema, wide: parquet.SchemaOf(c11WideFlat{}),
+			row:     func(id int) any { return mk(id) },
+			wideRow: func(id int) any { return c11WideFlat{mk(id), int64(id)} },
+			verify: func(row parquet.Row) int {
+				var x c11Flat
+				if e := schema.Reconstruct(&x, row); e != nil {
+					return alien
+				}
+				if x == mk(int(x.ID)) {
+					return int(x.ID)
+				}
+				return -100 - int(x.ID)
+			}}
+	}
+	schema := parquet.SchemaOf(c11Row{})
+	return c11Shape{schema: schema, wide: parquet.SchemaOf(c11WideRow{}),
+		row:     func(id int) any { return c11RowOf(id) },
+		wideRow: func(id int) any { return c11WideRow{c11RowOf(id), int64(id)} },
+		verify: func(row parquet.Row) int {
+			var x c11Row
+			if e := schema.Reconstruct(&x, row); e != nil {
+				return alien
+			}
+			want := c11RowOf(int(x.ID))
+			ok := x.K == want.K && x.S == want.S && (x.F == nil) == (want.F == nil) && (x.F == nil || *x.F == *want.F) && len(x.L) == len(want.L)
+			for i := range x.L {
+				ok = ok && i < len(want.L) && x.L[i] == want.L[i]
+			}
+			if ok {
+				return int(x.ID)
+			}
+			return -100 - int(x.ID)
+		}}
 }
 
 func c11Options(codec string, ver int, enc string, pstats bool, bloom int, maxRows int64) []parquet.WriterOption {
@@ -107,17 +172,19 @@ func (r *c11EvenRows) ReadRows(rows []parquet.Row) (int, error) {
 	return k, err
 }
 
-func c11Source(s c11Src, nrows int) (parquet.RowGroup, error) {
-	rows := make([]c11Row, nrows)
-	for i := range rows {
-		rows[i] = c11RowOf(i)
+func c11Source(s c11Src, nrows int, sh c11Shape) (parquet.RowGroup, error) {
+	ids := make([]int, nrows)
+	for i := range ids {
+		ids[i] = i
 	}
-	writeFile := func(rows []c11Row, extra ...parquet.WriterOption) (*parquet.File, error) {
+	writeFile := func(schema *parquet.Schema, mk func(int) any, ids []int, bloom int) (*parquet.File, error) {
 		buf := new(bytes.Buffer)
-		opts := append(c11Options(s.Codec, s.Ver, s.Enc, s.PStats, s.Bloom, 0), extra...)
-		w := parquet.NewGenericWriter[c11Row](buf, opts...)
-		if _, err := w.Write(rows); err != nil {
-			return nil, err
+		opts := append([]parquet.WriterOption{schema}, c11Options(s.Codec, s.Ver, s.Enc, s.PStats, bloom, 0)...)
+		w := parquet.NewWriter(buf, opts...)
+		for _, id := range ids {
+			if err := w.Write(mk(id)); err != nil {
+				return nil, err
+			}
 		}
 		if err := w.Close(); err != nil {
 			return nil, err
@@ -129,71 +196,85 @@ func c11Source(s c11Src, nrows int) (parquet.RowGroup, error) {
 		return parquet.OpenFile(bytes.NewReader(buf.Bytes()), int64(buf.Len()), fopts...)
 	}
 	sorting := parquet.SortingRowGroupConfig(parquet.SortingColumns(parquet.Ascending("k")))
+	// uneven segments, each below the destination's row-group limit in the "big" configuration (256)
+	segments := func() [][]int {
+		sizes := []int{150, 150, 100, 200, 130}
+		out := [][]int{}
+		at := 0
+		for i := 0; at < nrows; i++ {
+			n := min(sizes[i%len(sizes)], nrows-at)
+			out = append(out, ids[at:at+n])
+			at += n
+		}
+		return out
+	}
 	switch s.Kind {
 	case "file":
-		f, err := writeFile(rows)
+		f, err := writeFile(sh.schema, sh.row, ids, s.Bloom)
 		if err != nil {
 			return nil, err
 		}
 		return f.RowGroups()[0], nil
 	case "buffer":
-		b := parquet.NewGenericBuffer[c11Row](sorting)
-		_, err := b.Write(rows)
-		return b, err
-	case "merged": // two overlapping files: a heap merge
-		var a, b []c11Row
-		for i, r := range rows {
-			if i%2 == 0 {
-				a = append(a, r)
-			} else {
-				b = append(b, r)
+		b := parquet.NewBuffer(sh.schema, sorting)
+		for _, id := range ids {
+			if err := b.Write(sh.row(id)); err != nil {
+				return nil, err
 			}
 		}
-		fa, err := writeFile(a)
+		return b, nil
+	case "multi", "disjoint":
+		rgs := []parquet.RowGroup{}
+		for _, seg := range segments() {
+			f, err := writeFile(sh.schema, sh.row, seg, s.Bloom)
+			if err != nil {
+				return nil, err
+			}
+			rgs = append(rgs, f.RowGroups()[0])
+		}
+		if s.Kind == "multi" {
+			return parquet.MultiRowGroup(rgs...), nil
+		}
+		// sorted on k and not overlapping (k = id / 2 and segments start at even ids): the merge keeps them as segments
+		return parquet.MergeRowGroups(rgs, sh.schema, sorting)
+	case "merged": // two overlapping files: a heap merge
+		var a, b []int
+		for i := range ids {
+			if i%2 == 0 {
+				a = append(a, i)
+			} else {
+				b = append(b, i)
+			}
+		}
+		fa, err := writeFile(sh.schema, sh.row, a, s.Bloom)
 		if err != nil {
 			return nil, err
 		}
-		fb, err := writeFile(b)
+		fb, err := writeFile(sh.schema, sh.row, b, s.Bloom)
 		if err != nil {
 			return nil, err
 		}
-		return parquet.MergeRowGroups([]parquet.RowGroup{fa.RowGroups()[0], fb.RowGroups()[0]}, parquet.SchemaOf(c11Row{}), sorting)
+		return parquet.MergeRowGroups([]parquet.RowGroup{fa.RowGroups()[0], fb.RowGroups()[0]}, sh.schema, sorting)
 	case "dedup":
-		f, err := writeFile(rows)
+		f, err := writeFile(sh.schema, sh.row, ids, s.Bloom)
 		if err != nil {
 			return nil, err
 		}
-		return parquet.MergeRowGroups([]parquet.RowGroup{f.RowGroups()[0]}, parquet.SchemaOf(c11Row{}),
+		return parquet.MergeRowGroups([]parquet.RowGroup{f.RowGroups()[0]}, sh.schema,
 			parquet.SortingRowGroupConfig(parquet.SortingColumns(parquet.Ascending("k")), parquet.DropDuplicatedRows(true)))
 	case "converted":
 		// the source file has an extra column that the conversion drops
-		type wide struct {
-			c11Row
-			Extra int64 `parquet:"zextra"`
-		}
-		buf := new(bytes.Buffer)
-		w := parquet.NewGenericWriter[wide](buf, c11Options(s.Codec, s.Ver, s.Enc, s.PStats, 0, 0)...)
-		ws := make([]wide, len(rows))
-		for i := range rows {
-			ws[i] = wide{c11Row: rows[i], Extra: int64(i)}
-		}
-		if _, err := w.Write(ws); err != nil {
-			return nil, err
-		}
-		if err := w.Close(); err != nil {
-			return nil, err
-		}
-		f, err := parquet.OpenFile(bytes.NewReader(buf.Bytes()), int64(buf.Len()))
+		f, err := writeFile(sh.wide, sh.wideRow, ids, 0)
 		if err != nil {
 			return nil, err
 		}
-		conv, err := parquet.Convert(parquet.SchemaOf(c11Row{}), f.Schema())
+		conv, err := parquet.Convert(sh.schema, f.Schema())
 		if err != nil {
 			return nil, err
 		}
 		return parquet.ConvertRowGroup(f.RowGroups()[0], conv), nil
 	case "foreign":
-		f, err := writeFile(rows)
+		f, err := writeFile(sh.schema, sh.row, ids, s.Bloom)
 		if err != nil {
 			return nil, err
 		}
@@ -212,14 +293,13 @@ type c11Summary struct {
 	Reenc   int     `json:"reenc"`
 }
 
-func c11Summarise(data []byte) c11Summary {
+func c11Summarise(data []byte, sh c11Shape) c11Summary {
 	sum := c11Summary{Rows: []int{}, RGSizes: []int{}, Cols: [][]int{}}
 	f, err := parquet.OpenFile(bytes.NewReader(data), int64(len(data)))
 	if err != nil {
 		sum.Err, sum.Msg = 1, "open: "+err.Error()
 		return sum
 	}
-	schema := parquet.SchemaOf(c11Row{})
 	for g, rg := range f.RowGroups() {
 		sum.RGSizes = append(sum.RGSizes, int(rg.NumRows()))
 		rr := rg.Rows()
@@ -227,21 +307,7 @@ func c11Summarise(data []byte) c11Summary {
 		for {
 			n, err := rr.ReadRows(buf)
 			for _, row := range buf[:n] {
-				var x c11Row
-				if e := schema.Reconstruct(&x, row); e != nil {
-					sum.Rows = append(sum.Rows, alien)
-					continue
-				}
-				want := c11RowOf(int(x.ID))
-				ok := x.K == want.K && x.S == want.S && (x.F == nil) == (want.F == nil) && (x.F == nil || *x.F == *want.F) && len(x.L) == len(want.L)
-				for i := range x.L {
-					ok = ok && i < len(want.L) && x.L[i] == want.L[i]
-				}
-				if ok {
-					sum.Rows = append(sum.Rows, int(x.ID))
-				} else {
-					sum.Rows = append(sum.Rows, -100-int(x.ID))
-				}
+				sum.Rows = append(sum.Rows, sh.verify(row))
 			}
 			if err != nil {
 				if err != io.EOF {
@@ -320,13 +386,14 @@ func c11Main(args []string) error {
 			rid = sc.Orig
 		}
 		smallPages := rid%2 == 0 // destination cuts many pages per row group
+		sh := c11ShapeOf(sc.S.Flat)
 		tr.begin(ev{"sc": sc.ID, "s": sc.S, "d": sc.D, "maxRows": int(maxRows), "nrows": nrows, "smallPages": smallPages})
 		for _, fast := range []bool{true, false} {
 			var sum c11Summary
 			pan, msg := guard(func() {
 				parquet.VerifSetFastPaths(fast, fast, true)
 				defer parquet.VerifSetFastPaths(true, true, true)
-				src, err := c11Source(sc.S, nrows)
+				src, err := c11Source(sc.S, nrows, sh)
 				if err != nil {
 					sum = c11Summary{Err: 1, Msg: "source: " + err.Error(), Rows: []int{}, RGSizes: []int{}, Cols: [][]int{}}
 					return
@@ -337,7 +404,7 @@ func c11Main(args []string) error {
 				if smallPages {
 					dopts = append(dopts, parquet.PageBufferSize(2048))
 				}
-				w := parquet.NewGenericWriter[c11Row](out, dopts...)
+				w := parquet.NewWriter(out, append([]parquet.WriterOption{sh.schema}, dopts...)...)
 				if _, err := w.WriteRowGroup(src); err != nil {
 					sum = c11Summary{Err: 1, Msg: "WriteRowGroup: " + err.Error(), Rows: []int{}, RGSizes: []int{}, Cols: [][]int{}}
 					return
@@ -347,7 +414,7 @@ func c11Main(args []string) error {
 					return
 				}
 				c1, r1 := parquet.VerifPathCounters()
-				sum = c11Summarise(out.Bytes())
+				sum = c11Summarise(out.Bytes(), sh)
 				sum.Copied, sum.Reenc = int(c1-c0), int(r1-r0)
 			})
 			if pan {
